@@ -16,6 +16,7 @@ for i in range(n):
                                     cyclic=(opts.get("cyclic", "0") == "1") or (opts.get("cyclic") == "mix" and rng.random() < 0.4),
                                     modes=tuple(opts.get("modes", "sync,det").split(",")),
                                     cancel_p=float(opts.get("cancel", "0.25")), restart_p=float(opts.get("restart", "0.15")),
+                                    rewire_cyclic=opts.get("rwc", "0") == "1",
                                     adversarial=opts.get("adv", "0") == "1"))
 t0 = time.time()
 tot = engine_check.run_cases("dev", wd, cases, b + "/harness/engine_driver", batch=int(opts.get("batch", "40")))
